@@ -104,7 +104,9 @@ class RecLogger(Logger):
     def write_and_direct_process(self, log):
         tr = T()
         sim = tr.sim
-        kw = dict(log=log, times=times(sim), hold=holdings(sim), running=[m.is_running for m in sim.markets],
+        kw = dict(log=log, log_type=type(log).__name__, market_id=getattr(getattr(log, "market", None), "market_id", None),
+                  session_id=getattr(getattr(log, "session", None), "session_id", None),
+                  times=times(sim), hold=holdings(sim), running=[m.is_running for m in sim.markets],
                   sess_exec=sim.current_session.with_order_execution if sim.current_session is not None else None,
                   session=sim.current_session.session_id if sim.current_session is not None else None)
         if tr.options.get("fundamentals") and isinstance(log, (MarketStepBeginLog, MarketStepEndLog)):
